@@ -2,7 +2,7 @@
 import ast
 from ..core import (AnalysisError, U, calls_in, call_tail, call_recv, call_name, body_walk, kwarg, const_str)
 from ..cfg import CFG, assigned_value
-from ..lib import (params, returns_of, is_none_const, dominating_literals)
+from ..lib import (params, returns_of, is_none_const, dominating_literals, has_pattern, find_pattern)
 from . import cachefam as F
 from . import c10
 
@@ -294,19 +294,23 @@ def rule_parser_table(chk, rid):
     chk.ob(rid, f"{CMD}.ArgvArgumentParser", U(repo.cls(CMD, "ArgvArgumentParser").class_assigns.get("is_argv")) == "True", "ARGV parser splices its list into the arguments", repo.cls(CMD, "ArgvArgumentParser").node, m, key="is_argv")
     sq = repo.cls(CMD, "SequenceArgumentParser").methods.get("parse_meta")
     t = U(sq)
-    ok = "zip(self.sequence, metadata)" in t and "parsed_arguments.extend(parsed)" in t and "parsed_arguments.append(parsed)" in t
+    ext = find_pattern(sq, "_PA.extend(_P)")
+    app = find_pattern(sq, "_PA.append(_P)")
+    ok = has_pattern(sq, "zip(self.sequence, metadata)") and bool(ext) and any(b == ext[0][1] for _, b in app)
     chk.ob(rid, f"{CMD}.SequenceArgumentParser.parse_meta", ok, "sequence parser applies the parsers left to right, threading the remaining tokens", sq, m, key="sequence")
     # declared type: annotation first
     cm = repo.func(CMD, "command_metadata_from_callable")
     cfg = CFG(cm)
-    fb = [s for s in body_walk(cm) if isinstance(s, ast.Assign) and U(s.targets[0]) == "arg_type" and "type(p.default).__name__" in U(s.value)]
+    fbm = find_pattern(cm, "_T = type(_P.default).__name__")
+    fb = [n for n, _ in fbm]
     ok = len(fb) == 1
     if ok:
+        tv = fbm[0][1]["_T"]
         lits = dominating_literals(cfg, cfg.node_of(fb[0]))
-        ok = any(txt == "arg_type is None" and pol for _, txt, pol, _ in lits)
+        ok = any(txt == f"{tv} is None" and pol for _, txt, pol, _ in lits)
     chk.ob(rid, f"{CMD}.command_metadata_from_callable", ok, "the default's type is used only when there is no annotation" if ok else
            "the default's type overrides the annotation (e.g. `factor: float = 1` becomes an int parameter)", fb[0] if fb else cm, m, key="annotation-first")
-    an = [s for s in body_walk(cm) if isinstance(s, ast.Assign) and U(s.targets[0]) == "arg_type" and "__name__" in U(s.value) and "arg_annotation" in U(s.value)]
+    an = [n for n, b in find_pattern(cm, "_T = _A.__name__") if fbm and b["_T"] == fbm[0][1]["_T"] and b["_A"].isidentifier()]
     chk.ob(rid, f"{CMD}.command_metadata_from_callable", len(an) == 1, "the annotation's type name is the declared type", cm, m, key="annotation")
     t = U(cm)
     chk.ob(rid, f"{CMD}.command_metadata_from_callable", "arg['multiple'] = p.kind is inspect.Parameter.VAR_POSITIONAL" in t.replace('"', "'"), "*args parameters are marked variadic", cm, m, key="var-positional")
